@@ -38,11 +38,16 @@ type faultWriter struct {
 	limit    int
 	short    bool
 	full     bool // the failing call reports the complete count together with the error
+	oneShot  bool // transient failure: only one call fails, the destination works again afterwards
 	accepted int
 	failed   int
 }
 
 func (w *faultWriter) Write(p []byte) (int, error) {
+	if w.oneShot && w.failed > 0 {
+		w.accepted += len(p)
+		return len(p), nil
+	}
 	if w.accepted+len(p) <= w.limit && w.failed == 0 {
 		w.accepted += len(p)
 		return len(p), nil
@@ -125,7 +130,7 @@ func init() {
 			"faults placed after the last byte the reader consumes are not counted (the library never sees them)",
 			"WriteFile faults are injected by the kernel through RLIMIT_FSIZE with SIGXFSZ ignored (write returns EFBIG after a short write up to the limit)",
 		},
-		Require: []string{"write_faults_full_count", "write_faults_injected", "write_faults_short", "write_faults_after_header", "read_faults_returned", "read_faults_with_data", "writefile_faults", "unfaulted_writes", "read_faults_big_payload"},
+		Require: []string{"write_faults_full_count", "write_faults_transient", "write_fault_files_above_64KiB", "write_faults_injected", "write_faults_short", "write_faults_after_header", "read_faults_returned", "read_faults_with_data", "writefile_faults", "unfaulted_writes", "read_faults_big_payload"},
 		Run:     runC10,
 	})
 }
@@ -153,9 +158,12 @@ func runC10(c *mon.Ctx) {
 		in := map[string]any{"history": a.desc, "size": len(b)}
 		// ---- destination faults
 		for _, k := range offsets {
-			for mode := 0; mode < 3; mode++ {
+			for mode := 0; mode < 4; mode++ {
 				short := mode == 1
-				w := &faultWriter{limit: k, short: short, full: mode == 2, err: writeFaultKinds[(k+int(i))%len(writeFaultKinds)]}
+				if mode == 3 {
+					c.Count("write_faults_transient", 1)
+				}
+				w := &faultWriter{limit: k, short: short, full: mode == 2, oneShot: mode == 3, err: writeFaultKinds[(k+int(i))%len(writeFaultKinds)]}
 				var n int64
 				var err error
 				in["fault_offset"], in["short_write"], in["full_count_with_error"], in["error_kind"] = k, short, mode == 2, fmt.Sprintf("%T", w.err)
@@ -229,6 +237,10 @@ func runC10(c *mon.Ctx) {
 	// ---- files with a payload above the chunked-read threshold: faults around and inside the payload
 	c.Each("big-payload", c.N(16, 200), func(i int64, r *mon.Rand) {
 		n := r.Pick(4096, 4097, 5000, 8192, 16384, 16385)
+		if i%4 == 3 {
+			n = r.Pick(70_000, 300_000, 1<<20+4096, 2<<20) // chunks above 64 KiB / 256 KiB / 1 MiB
+			c.Count("write_fault_files_above_64KiB", 1)
+		}
 		p := r.Bytes7(n)
 		var big []byte
 		if i%2 == 0 {
@@ -259,8 +271,41 @@ func runC10(c *mon.Ctx) {
 		start := bytes.Index(b, p[:16])
 		var offs []int
 		for k := 0; k < len(b); k++ {
+			if n > 20_000 {
+				continue // large files: a short list of offsets, below
+			}
 			if k < 120 || k > len(b)-60 || (k >= start-12 && k < start+12) || (k%4096) < 3 || (k%4096) > 4093 || r.P(1, 200) || c.Thorough() {
 				offs = append(offs, k)
+			}
+		}
+		if n > 20_000 {
+			// every byte of the file header and of both chunk heads, around the payload start, the last bytes, and
+			// a few offsets inside the payload (block boundaries of 4 KiB, 64 KiB, 1 MiB and random ones)
+			for k := 0; k < 60 && k < len(b); k++ {
+				offs = append(offs, k)
+			}
+			for at := bytes.Index(b[14:], []byte("MTrk")); at >= 0; {
+				at += 14
+				for k := at - 2; k < at+12 && k < len(b); k++ {
+					if k >= 60 {
+						offs = append(offs, k)
+					}
+				}
+				nx := bytes.Index(b[at+4:], []byte("MTrk"))
+				if nx < 0 {
+					break
+				}
+				at = at + 4 + nx - 14
+			}
+			for k := start - 12; k < start+12; k++ {
+				if k >= 60 {
+					offs = append(offs, k)
+				}
+			}
+			for _, k := range []int{start + 4096, start + 65536, start + 65537, start + 1<<20, start + n/2, len(b) - 20, len(b) - 2, len(b) - 1, start + r.Intn(n), start + r.Intn(n)} {
+				if k > 60 && k < len(b) {
+					offs = append(offs, k)
+				}
 			}
 		}
 		in := map[string]any{"file": fmt.Sprintf("%d bytes with one payload of %d bytes starting at offset %d", len(b), n, start)}
@@ -287,13 +332,14 @@ func runC10(c *mon.Ctx) {
 					c.Violation("read-fault-swallowed", fmt.Sprintf("source failed with a non-EOF error at byte offset %d of %d (payload of %d bytes starts at %d) but ReadFrom returned nil error (value with %d tracks)", k, len(b), n, start, nt), in, "error", "nil")
 				}
 			}
-			for _, short := range []bool{false, true} {
-				w := &faultWriter{limit: k, short: short}
+			for mode := 0; mode < 3; mode++ {
+				short := mode == 1
+				w := &faultWriter{limit: k, short: short, oneShot: mode == 2}
 				_, err := s.WriteTo(w)
 				c.Count("write_faults_injected", 1)
 				c.Eval(1)
-				if err == nil {
-					c.Violation("write-fault-swallowed", fmt.Sprintf("destination failed at byte offset %d of %d (short=%v) but WriteTo returned nil", k, len(b), short), in, "error", "nil")
+				if w.failed > 0 && err == nil {
+					c.Violation("write-fault-swallowed", fmt.Sprintf("destination failed at byte offset %d of %d (short=%v, transient=%v) but WriteTo returned nil", k, len(b), short, mode == 2), in, "error", "nil")
 				}
 			}
 		}
